@@ -357,6 +357,10 @@ func strGmatchIter(L *LState) int {
 func strGmatch(L *LState) int {
 	str := L.CheckString(1)
 	pattern := L.CheckString(2)
+	if strings.HasPrefix(pattern, "^") {
+		// in gmatch a leading '^' is an ordinary character, not an anchor
+		pattern = "%" + pattern
+	}
 	mds, err := pm.Find(pattern, []byte(str), 0, -1)
 	if err != nil {
 		L.RaiseError(err.Error())
